@@ -947,3 +947,8 @@ impl<T> Parser<T> for ParseAny<T> {
         Meta::Item(Box::new(self.item()))
     }
 }
+
+#[cfg(kani)]
+mod verif_kani {
+    include!(concat!(env!("PACAK_BPAF_VERIF_DIR"), "/kani/params.rs"));
+}
